@@ -99,3 +99,50 @@ func HarnessC11Webhook() {
 		zz.Assert("webhook-dry-runs-change-nothing", !w.Effect)
 	}
 }
+
+// HarnessC11WebhookCreate: the webhook refuses to admit a new XRD whose
+// claim names collide with the composite's names - kind, plural, singular or
+// list kind - and admits one whose claim names are its own.
+//
+//gosym:harness
+//gosym:cover rejected admitted claimless
+func HarnessC11WebhookCreate() {
+	s := kube.New()
+	s.Register(&extv1.CustomResourceDefinition{}, &extv1.CustomResourceDefinitionList{}, "apiextensions.k8s.io", "CustomResourceDefinition")
+
+	xrd := &v1.CompositeResourceDefinition{ObjectMeta: metav1.ObjectMeta{Name: "xthings.example.org", UID: "uid-xrd"}}
+	xrd.Spec.Group = "example.org"
+	xrd.Spec.Names = extv1.CustomResourceDefinitionNames{Kind: "XThing", ListKind: "XThingList", Plural: "xthings", Singular: "xthing"}
+	xrd.Spec.Versions = []v1.CompositeResourceDefinitionVersion{{Name: "v1", Served: true, Referenceable: true,
+		Schema: &v1.CompositeResourceValidation{OpenAPIV3Schema: runtime.RawExtension{Raw: []byte(`{"type":"object","properties":{"spec":{"type":"object","properties":{"a":{"type":"string"}}}}}`)}}}}
+	collides := false
+	if zz.Bool("xrd.offersClaim") {
+		cn := &extv1.CustomResourceDefinitionNames{Kind: "Thing", ListKind: "ThingList", Plural: "things", Singular: "thing"}
+		switch zz.Choose("claim.collides.in", 5) {
+		case 1:
+			cn.Kind, collides = xrd.Spec.Names.Kind, true
+		case 2:
+			cn.Plural, collides = xrd.Spec.Names.Plural, true
+		case 3:
+			cn.Singular, collides = xrd.Spec.Names.Singular, true
+		case 4:
+			cn.ListKind, collides = xrd.Spec.Names.ListKind, true
+		}
+		xrd.Spec.ClaimNames = cn
+	} else {
+		zz.Cover("claimless")
+	}
+
+	v := &validator{client: s}
+	_, err := v.ValidateCreate(context.Background(), xrd)
+	if err != nil {
+		zz.Cover("rejected")
+		zz.Assert("create-rejected-only-for-colliding-claim-names", collides)
+	} else {
+		zz.Cover("admitted")
+		zz.Assert("colliding-claim-names-are-rejected-on-create", !collides)
+	}
+	for _, w := range s.Writes(false) {
+		zz.Assert("webhook-dry-runs-change-nothing", !w.Effect)
+	}
+}
